@@ -410,11 +410,28 @@ def const_str(node: ast.AST) -> Optional[str]:
     return None
 
 
+def splat_keywords(call: ast.Call) -> Dict[str, ast.AST]:
+    """Keyword arguments a call receives through `**name` where `name` is bound exactly once, in the enclosing function,
+    to a dict literal with constant string keys (`kw = {"a": 1, ...}; f(**kw)`) - the spelling a refactoring that
+    collects repeated keyword arguments produces.  Later stores `name["k"] = v` are not followed."""
+    out: Dict[str, ast.AST] = {}
+    for k in call.keywords:
+        if k.arg is None and isinstance(k.value, ast.Name):
+            fn = enclosing_function(call)
+            if fn is None:
+                continue
+            defs = [s for s in walk_local(fn) if isinstance(s, ast.Assign) and any(isinstance(t, ast.Name) and t.id == k.value.id for t in s.targets)]
+            if len(defs) == 1 and isinstance(defs[0].value, ast.Dict) and all(isinstance(kk, ast.Constant) and isinstance(kk.value, str) for kk in defs[0].value.keys):
+                for kk, vv in zip(defs[0].value.keys, defs[0].value.values):
+                    out[kk.value] = vv
+    return out
+
+
 def get_kwarg(call: ast.Call, name: str) -> Optional[ast.AST]:
     for k in call.keywords:
         if k.arg == name:
             return k.value
-    return None
+    return splat_keywords(call).get(name)
 
 
 def get_arg(call: ast.Call, pos: int, name: Optional[str] = None) -> Optional[ast.AST]:
